@@ -47,3 +47,21 @@ func Unlock(unlock func()) {
 		h()
 	}
 }
+
+// OnceDo wraps X.Do(f) for a sync.Once X: the function runs with yields suppressed, because a
+// task parked inside Once.Do would hold the Once's internal mutex and the next caller would
+// block in a way testing/synctest does not count as durably blocked.
+var NoYieldHook func(enter bool)
+
+func OnceDo(do func(func()), f func()) {
+	h := NoYieldHook
+	if h == nil {
+		do(f)
+		return
+	}
+	do(func() {
+		h(true)
+		defer h(false)
+		f()
+	})
+}
